@@ -295,7 +295,9 @@ func alphabet(prop string, thorough bool) []Op {
 		// a dependency cycle makes Run return while other targets are still running; in the
 		// free-running search nothing joins them, so cycles are left to the controlled-scheduler
 		// pass (C18 second pass, C05)
-		if o.Name != "dep:cycle" {
+		// an injected record-write fault hits whichever targets happen to be saving at that moment:
+		// it belongs to the protocol check only (C18), whose oracle does not depend on who was hit
+		if o.Name != "dep:cycle" && (o.Name != "sabotage:leaf" || prop == "C18") {
 			all = append(all, o.Name)
 		}
 	}
